@@ -19,7 +19,8 @@ CONSTANTS NS,          \* scenarios
           K,           \* constraints (constraint k lives on decision t_k)
           SetChoices,  \* support sets (sets of item kinds) that may be given to suppset
           RuleCacheFixed, \* TRUE: dvar()/adapt() invalidate the rule cache and set pupdate (not the case today)
-          MaxSteps, Closing
+          MaxSteps, Closing,
+          Script       \* <<>>: free histories; otherwise Script[i] = the action names allowed as step i (focused exhaustive runs)
 
 Scen == 1..NS
 CIds == 1..K
@@ -31,20 +32,23 @@ VARIABLES amb,       \* ambiguity() was called
           decl,      \* decl[k]: decision t_k declared?  (t_1 exists from the start; others may be declared late)
           evw,       \* evw[k]: t_k adapted to every scenario (event-wise) ?
           st,        \* st[k]: constraint k added
+          own,       \* own[k]: the support the constraint carries itself through .forall(..) (NoSet: the ambiguity set's supports apply)
           gen,       \* ghost: generation of the declaration
           pupd, primalGen,
           ruleGen,   \* generation of (decl, evw) the rule cache was built from; -1 = no cache
           vgen,      \* ghost: generation of (decl, evw)
           hist, out
-vars == <<amb, supp, objSet, decl, evw, st, gen, pupd, primalGen, ruleGen, vgen, hist, out>>
+vars == <<amb, supp, objSet, decl, evw, st, own, gen, pupd, primalGen, ruleGen, vgen, hist, out>>
 
 SetSeq(S) == SetToSeq(S)
 Log(act, args, expect) == hist' = Append(hist, [act |-> act, args |-> args, expect |-> expect])
 InClosing == Closing /\ Len(hist) >= MaxSteps - 1
 More == Len(hist) < MaxSteps /\ ~InClosing
+Allowed(a) == Script = <<>> \/ (Len(hist) < Len(Script) /\ a \in Script[Len(hist) + 1])
 
 Init == /\ amb = FALSE /\ supp = [s \in Scen |-> NoSet] /\ objSet = FALSE
         /\ decl = [k \in CIds |-> k = 1] /\ evw = [k \in CIds |-> FALSE] /\ st = [k \in CIds |-> FALSE]
+        /\ own = [k \in CIds |-> NoSet]
         /\ gen = 0 /\ pupd = TRUE /\ primalGen = -1 /\ ruleGen = -1 /\ vgen = 0
         /\ hist = <<>> /\ out = "ok"
 
@@ -52,54 +56,62 @@ AnySt == \E k \in CIds : st[k]
 
 \* m.ambiguity(): refused once constraints exist (dro.py:140)
 Ambiguity ==
-    /\ More /\ ~amb
+    /\ More /\ Allowed("ambiguity") /\ ~amb
     /\ IF AnySt THEN /\ out' = "err" /\ Log("ambiguity", <<>>, "err") /\ UNCHANGED amb
                 ELSE /\ out' = "ok" /\ Log("ambiguity", <<>>, "ok") /\ amb' = TRUE
-    /\ UNCHANGED <<supp, objSet, decl, evw, st, gen, pupd, primalGen, ruleGen, vgen>>
+    /\ UNCHANGED <<supp, objSet, decl, evw, st, own, gen, pupd, primalGen, ruleGen, vgen>>
 
 \* fset[s].suppset(S) / fset.suppset(S) for all scenarios (s = 0)
 SuppSet(s, S) ==
-    /\ More /\ amb
+    /\ More /\ Allowed("suppset") /\ amb
     /\ supp' = [t \in Scen |-> IF s = 0 \/ t = s THEN S ELSE supp[t]]
     /\ gen' = gen + 1           \* ghost: the declaration changed (nothing in the code notes it: sets are read at formulation)
     /\ out' = "ok" /\ Log("suppset", <<s, SetSeq(S)>>, "ok")
-    /\ UNCHANGED <<amb, objSet, decl, evw, st, pupd, primalGen, ruleGen, vgen>>
+    /\ UNCHANGED <<amb, objSet, decl, evw, st, own, pupd, primalGen, ruleGen, vgen>>
 
 SetObj ==
-    /\ More /\ amb /\ ~objSet
+    /\ More /\ Allowed("minsup") /\ amb /\ ~objSet
     /\ objSet' = TRUE /\ gen' = gen + 1 /\ pupd' = TRUE
     /\ out' = "ok" /\ Log("minsup", <<>>, "ok")
-    /\ UNCHANGED <<amb, supp, decl, evw, st, primalGen, ruleGen, vgen>>
+    /\ UNCHANGED <<amb, supp, decl, evw, st, own, primalGen, ruleGen, vgen>>
 
 \* a further decision variable t_k = m.dvar(): dvar() touches neither pupdate nor the rule cache
 DVar(k) ==
-    /\ More /\ ~decl[k]
+    /\ More /\ Allowed("dvar") /\ ~decl[k]
     /\ decl' = [decl EXCEPT ![k] = TRUE] /\ vgen' = vgen + 1 /\ gen' = gen + 1
     /\ ruleGen' = IF RuleCacheFixed THEN -1 ELSE ruleGen
     /\ pupd' = IF RuleCacheFixed THEN TRUE ELSE pupd
     /\ out' = "ok" /\ Log("dvar", <<k>>, "ok")
-    /\ UNCHANGED <<amb, supp, objSet, evw, st, primalGen>>
+    /\ UNCHANGED <<amb, supp, objSet, evw, st, own, primalGen>>
 
 \* t_k.adapt(s) for every scenario: event-wise decision
 Adapt(k) ==
-    /\ More /\ decl[k] /\ ~evw[k]
+    /\ More /\ Allowed("adapt") /\ decl[k] /\ ~evw[k]
     /\ evw' = [evw EXCEPT ![k] = TRUE] /\ vgen' = vgen + 1 /\ gen' = gen + 1
     /\ ruleGen' = IF RuleCacheFixed THEN -1 ELSE ruleGen
     /\ pupd' = IF RuleCacheFixed THEN TRUE ELSE pupd
     /\ out' = "ok" /\ Log("adapt", <<k>>, "ok")
-    /\ UNCHANGED <<amb, supp, objSet, decl, st, primalGen>>
+    /\ UNCHANGED <<amb, supp, objSet, decl, st, own, primalGen>>
 
 St(k) ==
-    /\ More /\ decl[k] /\ ~st[k]
+    /\ More /\ Allowed("st") /\ decl[k] /\ ~st[k]
     /\ st' = [st EXCEPT ![k] = TRUE] /\ gen' = gen + 1 /\ pupd' = TRUE
-    /\ out' = "ok" /\ Log("st", <<k>>, "ok")
-    /\ UNCHANGED <<amb, supp, objSet, decl, evw, primalGen, ruleGen, vgen>>
+    /\ out' = "ok" /\ Log("st", <<k, SetSeq(own[k])>>, "ok")
+    /\ UNCHANGED <<amb, supp, objSet, decl, evw, own, primalGen, ruleGen, vgen>>
+
+\* c_k.forall(S): the constraint object carries its own support (raw support constraints; lp.py DecRoConstr.forall),
+\* decided before it is added; it then applies in EVERY scenario instead of the scenario's declared support
+OwnSet(k, S) ==
+    /\ More /\ Allowed("ownset") /\ decl[k] /\ ~st[k] /\ own[k] = NoSet
+    /\ own' = [own EXCEPT ![k] = S]
+    /\ out' = "ok" /\ Log("ownset", <<k, SetSeq(S)>>, "ok")
+    /\ UNCHANGED <<amb, supp, objSet, decl, evw, st, gen, pupd, primalGen, ruleGen, vgen>>
 
 \* what a formulation needs (ideal): an objective with its ambiguity set, and a support for every scenario
 \* (supports are needed only once a row with random terms is in the model: the objective E(sum t) has none)
-Formulable == objSet /\ (AnySt => \A s \in Scen : supp[s] # NoSet)
+Formulable == objSet /\ ((\E k \in CIds : st[k] /\ own[k] = NoSet) => \A s \in Scen : supp[s] # NoSet)
 
-DeclSnapshot == [k \in CIds |-> IF st[k] THEN [evw |-> evw[k], sets |-> [s \in Scen |-> SetSeq(supp[s])]]
+DeclSnapshot == [k \in CIds |-> IF st[k] THEN [evw |-> evw[k], sets |-> [s \in Scen |-> SetSeq(IF own[k] # NoSet THEN own[k] ELSE supp[s])]]
                                       ELSE [evw |-> FALSE, sets |-> <<>>]]
 
 \* transcription of do_math: cache hit | re-expansion through the (possibly stale) rule cache
@@ -119,14 +131,15 @@ SolveCore(via) ==
           THEN /\ pupd' = FALSE /\ primalGen' = gen
                /\ ruleGen' = IF ruleGen < 0 THEN vgen ELSE ruleGen
           ELSE UNCHANGED <<pupd, primalGen, ruleGen>>
-    /\ UNCHANGED <<amb, supp, objSet, decl, evw, st, gen, vgen>>
-Solve == More /\ SolveCore("solve")
-DoMath == More /\ SolveCore("do_math")
+    /\ UNCHANGED <<amb, supp, objSet, decl, evw, st, own, gen, vgen>>
+Solve == More /\ Allowed("solve") /\ SolveCore("solve")
+DoMath == More /\ Allowed("do_math") /\ SolveCore("do_math")
 CloseSolve == Closing /\ Len(hist) = MaxSteps - 1 /\ SolveCore("solve")
 
 Next == \/ Ambiguity \/ SetObj \/ Solve \/ DoMath \/ CloseSolve
         \/ \E s \in 0..NS, S \in SetChoices : SuppSet(s, S)
         \/ \E k \in CIds : DVar(k) \/ Adapt(k) \/ St(k)
+        \/ \E k \in CIds, S \in SetChoices : OwnSet(k, S)
 Spec == Init /\ [][Next]_vars
 
 \* C09: the cached expansion of the decision variables always belongs to the current declaration
@@ -137,5 +150,5 @@ CacheCoherent == CacheHit => primalGen = gen
 KnownStale == RuleCacheFixed \/ TRUE
 
 ExportEnd == (Len(hist) = MaxSteps) => PrintT(ToJson([hist |-> hist, formulable |-> Formulable]))
-View == <<amb, supp, objSet, decl, evw, st, gen, pupd, primalGen, ruleGen, vgen, out>>
+View == <<amb, supp, objSet, decl, evw, st, own, gen, pupd, primalGen, ruleGen, vgen, out>>
 =============================================================================
